@@ -209,7 +209,19 @@ func (g *Gen) randString() string {
 func (g *Gen) randKey(i int) string {
 	g.keySeq++
 	if g.AllowExotic && g.Rng.IntN(5) == 0 {
-		return pick(g.Rng, []string{"a\"b", "a\\b", "é", "k y", "#h", "//", "@k", "k:", "", "😀"}) + strconv.Itoa(g.keySeq)
+		k := pick(g.Rng, []string{"a\"b", "a\\b", "é", "k y", "#h", "//", "@k", "k:", "", "😀"}) + strconv.Itoa(g.keySeq)
+		// blanks at the ends of a name belong to the name (written raw or as escapes)
+		switch g.Rng.IntN(8) {
+		case 0:
+			k = " " + k
+		case 1:
+			k += " "
+		case 2:
+			k = "\t" + k + "\n"
+		case 3:
+			k = "  " + k + "  "
+		}
+		return k
 	}
 	return pick(g.Rng, []string{"id", "name", "k", "value", "items", "x", "size", "tag"}) + strconv.Itoa(g.keySeq)
 }
@@ -718,6 +730,12 @@ func (g *Gen) Object(depth int, inObject bool) *Node {
 			}
 		}
 	}
+	if len(n.Children) == 0 && rng.IntN(6) == 0 {
+		// an empty container as the example of a choice of types
+		n.RVal("or", g.orForContainer("object"))
+		g.note(n)
+		return n
+	}
 	ap := rng.IntN(8)
 	if shortcuts > 0 && rng.IntN(2) == 0 {
 		ap = 0 // the additional-properties rule next to key shortcuts
@@ -747,6 +765,19 @@ func (g *Gen) Object(depth int, inObject bool) *Node {
 	return n
 }
 
+// orForContainer makes an `or` list that an (empty) object or array satisfies: "any" or the container's own type,
+// as plain names and as rule-sets, next to alternatives it does not fit.
+func (g *Gen) orForContainer(kind string) RV {
+	fits := []RV{LitV(`"any"`), LitV(Q(kind)), SetOf(Rule{"type", LitV(Q(kind))}), SetOf(Rule{"type", LitV(`"any"`)})}
+	other := []RV{LitV(`"string"`), LitV(`"integer"`), SetOf(Rule{"type", LitV(`"integer"`)}, Rule{"min", LitV("0")}), LitV(`"null"`), LitV(`"boolean"`)}
+	items := []RV{pick(g.Rng, fits), pick(g.Rng, other)}
+	if g.Rng.IntN(3) == 0 {
+		items = append(items, LitV(`"float"`))
+	}
+	g.Rng.Shuffle(len(items), func(i, j int) { items[i], items[j] = items[j], items[i] })
+	return ListOf(items...)
+}
+
 func (g *Gen) Array(depth int, inObject bool) *Node {
 	rng := g.Rng
 	g.nodes++
@@ -764,6 +795,11 @@ func (g *Gen) Array(depth int, inObject bool) *Node {
 		} else {
 			n.Children = append(n.Children, g.Value(depth-1, false))
 		}
+	}
+	if cnt == 0 && rng.IntN(6) == 0 {
+		n.RVal("or", g.orForContainer("array"))
+		g.note(n)
+		return n
 	}
 	if cnt > 0 || rng.IntN(2) == 0 {
 		switch rng.IntN(6) {
